@@ -1187,8 +1187,31 @@ func a4(w *World, r *Report) {
 				continue
 			}
 			nT++
-			if ok, why := w.failsUnder(rt, base, AR(evmErr, "!=", `^nil$`), AR(evmErr, "!=", `^xerrors\.ErrUnknownTrxType$`)); !ok {
-				badT = fmt.Sprintf("for (type=%d, receiverHasCode=%v): %s", a.typ, a.hasCode, why)
+			// the handler's call is an event, so a helper that holds it (executeByType)
+			// is walked in runTrx's terms and the facts decide the tests inside it
+			evmCall := func(in ssa.Instruction) string {
+				if c, isC := in.(ssa.CallInstruction); isC && c.Common().IsInvoke() && c.Common().Method.Name() == "ExecuteTrx" && strings.HasSuffix(w.Canon(c.Common().Value), ".TrxEVMHandler") {
+					return "EVM"
+				}
+				return ""
+			}
+			savedCR := w.callResultsOn
+			w.callResultsOn = true // what an expanded helper hands back prints as the value it returned
+			o := w.runUnder(rt, base, evmCall, AR(evmErr, "!=", `^nil$`), AR(evmErr, "!=", `^xerrors\.ErrUnknownTrxType$`))
+			w.callResultsOn = savedCR
+			// only paths on which the EVM controller was asked count: a route the
+			// evaluator cannot exclude that never reaches it tolerates nothing
+			nTol := 0
+			for _, evs := range o.okEvents {
+				for _, e := range evs {
+					if e == "EVM" {
+						nTol++
+						break
+					}
+				}
+			}
+			if !o.complete || nTol > 0 {
+				badT = fmt.Sprintf("for (type=%d, receiverHasCode=%v): %d successful path(s) remain after the EVM controller's failure", a.typ, a.hasCode, nTol)
 			}
 		}
 		if nT == 0 {
